@@ -185,6 +185,11 @@ def concrete_dict_items(ctx, d):
         return [(k, v) for k, v in ctx.st(d)["v"].values()]
     if isinstance(d, dict):
         return list(d.items())
+    if isinstance(d, SV) and d.ty.startswith("u:"):
+        # a mapping known only by identity: its (fixed) key set and per-key values come from the sidecar model
+        m = ctx.prog.usort_models.get(d.ty[2:])
+        if m is not None and hasattr(m, "mapping"):
+            return list(m.mapping(ctx, d))
     raise Undecided("** of non-concrete dict %r" % (d,))
 
 
@@ -610,7 +615,14 @@ def wseq_store(ctx, s, i, v):
     vals = v if isinstance(v, tuple) else (v,)
     if len(vals) != len(s["shape"]):
         raise Undecided("window sequence element shape mismatch")
-    s["arrs"] = [z3.Store(a, i, z(x, _base_ty(ty) if _base_ty(ty) in ("real", "int") else None)) for a, x, ty in zip(s["arrs"], vals, s["shape"])]
+    def term(x, ty, a):
+        if x is None:
+            # python None in a typed slot: the distinguished constant none!<Sort> (e.g. the marker deed's dog)
+            return z3.Const("none!" + a.sort().range().name(), a.sort().range())
+        return z(x, _base_ty(ty) if _base_ty(ty) in ("real", "int") else None)
+    s["arrs"] = [z3.Store(a, i, term(x, ty, a)) for a, x, ty in zip(s["arrs"], vals, s["shape"])]
+    if s.get("on_store"):
+        s["on_store"](ctx, i, vals)
 
 
 def wseq_get(ctx, r, idx):
@@ -653,6 +665,12 @@ def value_getattr(ctx, v, name):
     if v is None:
         raise py_exc(AttributeError, "'NoneType' object has no attribute '%s'" % name)
     t = ty_of(v)
+    if t.startswith("u:"):
+        # an object known only by identity (uninterpreted sort): its attributes/methods are given by a sidecar model
+        m = ctx.prog.usort_models.get(t[2:])
+        if m is None:
+            raise Undecided("no model for attributes of %s values" % t)
+        return m.getattr(ctx, v, name)
     if t in TEXT:
         if name in TEXT_METHODS:
             if (t == "bytes" and name in ("encode", "format", "casefold")) or (t == "str" and name in ("decode", "hex")):
@@ -790,7 +808,11 @@ def dict_method(ctx, r, s, name, args, kwargs):
     if name == "update":
         s["v"] = dict(d)
         if args:
-            for k, v in concrete_dict_items(ctx, args[0]):
+            if isinstance(args[0], Ref) and args[0].kind == "dict":
+                pairs = concrete_dict_items(ctx, args[0])
+            else:      # iterable of (key, value) pairs
+                pairs = [tuple(unpack(ctx, kv, 2)) for kv in concrete_iter(ctx, args[0], must=True)]
+            for k, v in pairs:
                 s["v"][hashable(k)] = (k, v)
         for k, v in kwargs.items():
             s["v"][k] = (k, v)
@@ -892,6 +914,21 @@ def symbolic_for(interp, st, fr, it, spec):
     ctx = interp.ctx
     if isinstance(it, Ref) and it.kind == "ext" and hasattr(ctx.st(it)["model"], "for_loop"):
         return ctx.st(it)["model"].for_loop(interp, st, fr, it, spec)
+    if isinstance(it, Ref) and it.kind == "wseq":
+        # `for x in <sequence of symbolic length>`: invariant cut with a hidden position `_idx` (absolute array index);
+        # the invariant may mention _idx.  (Mutation of the sequence by the body is not modelled: A-ITER.)
+        fr.locals["_idx"] = mk(ctx.st(it)["lo"], "int")
+
+        def test():
+            return z(fr.locals["_idx"], "int") < ctx.st(it)["hi"]
+
+        def pre():
+            i = z(fr.locals["_idx"], "int")
+            interp.assign(st.target, wseq_elem(ctx, ctx.st(it), i), fr)
+            fr.locals["_idx"] = mk(i + 1, "int")
+        spec.types.setdefault("_idx", "int")
+        fr.locals.setdefault("_idx", 0)
+        return interp.cut_loop(st, fr, spec, test=test, body=st.body, pre=pre, extra_havoc=("_idx",))
     if isinstance(it, Ref) and it.kind == "srange":
         s = ctx.st(it)
         # for i in range(n): as a cut loop with hidden counter
@@ -1205,7 +1242,14 @@ def call_foreign(interp, f, args, kwargs, fr, site):
             return h(ctx, args, kwargs)
         if o is pyb.next and isinstance(args[0], Ref) and args[0].kind == "ext":
             return interp.call_value(ref_getattr(ctx, args[0], "__next__"), [], {}, fr, site)
+        if o is pyb.next and isinstance(args[0], SV) and args[0].ty.startswith("u:"):
+            return interp.call_value(value_getattr(ctx, args[0], "__next__"), [], {}, fr, site)
         raise Undecided("builtin %s" % o.__name__)
+    if o is pyb.any or o is pyb.all:
+        items = concrete_iter(ctx, args[0], must=True)
+        cs = [truth(ctx, x) for x in items]
+        r = t_or(*cs) if o is pyb.any else t_and(*cs)
+        return r if isinstance(r, bool) else mk(r, "bool")
     if o is pyb.callable:
         return isinstance(args[0], (FuncVal, ModelFn, ClassInfo, Foreign, BoundBuiltin))
     # pure foreign function on fully concrete arguments: run it (A-DET for the listed names only)
